@@ -104,6 +104,14 @@ def streams(tier, rng, P, only=None, cases=None):
                 for nxt in ["レミ", "ミ e", "e ファ"]:
                     a = cmd + " " + nxt; b = cmd + sep + nxt
                     cs.append(dict(req="compile2 %s %s" % (hx(a), hx(b)), src=a, src2=b, show="%r vs %r" % (a, b), ntok=3, kind="sep", key="k" + cmd + sep + nxt))
+        # an expression-valued argument closed by the line break, with a comment in front of that line break, followed on the next line by a
+        # character that is an operator inside expressions — at top level and inside Rhythm{…} / Sub{…} blocks
+        for wrap in ["%s", "Rhythm{ %s }", "Sub{ %s } c", "[2 %s ]"]:
+            for cmd in ["@1", "y7,100", "@3,0", "y10,20"]:
+                for follow in ["| b4 s4", "> s8 s8 b4", "< b4", "| c d"] if "Rhythm" in wrap else ["| c4 d4", "> c8 d8 e4", "< c", "(c) d"]:
+                    for sepc in [" // kit\n", " //\n", " /* x */\n", "\t// a | b\n"]:
+                        a = wrap % (cmd + "\n" + follow); b = wrap % (cmd + sepc + follow)
+                        cs.append(dict(req="compile2 %s %s" % (hx(a), hx(b)), src=a, src2=b, show="%r vs %r" % (a, b), ntok=3, kind="sep", key="cm" + wrap + cmd + follow + sepc))
         for j in range(300 if big else 60):
             # kana lines with written sharps in several layouts against the MML transliteration
             notes = [rng.choice([("ド", "c"), ("レ", "d"), ("ミ", "e"), ("ファ", "f"), ("ソ", "g"), ("ラ", "a"), ("シ", "b")]) for _ in range(rng.randrange(2, 7))]
